@@ -180,6 +180,12 @@ Definition raw_nested (a b : str) : bool :=
   negb (str_eqb a b) && (is_prefix (split 47 a) (split 47 b) || is_prefix (split 47 b) (split 47 a)).
 Definition loc_clash (a b : str) : bool :=
   is_prefix (loc_of a) (loc_of b) || is_prefix (loc_of b) (loc_of a).
+(* os.makedirs works on the lexical path: 'a/x/../y' also creates 'a/x' *)
+Definition lex_locs (d : str) : list (list str) :=
+  let comps := filter (fun c => negb (is_empty c || str_eqb c dot)) (split 47 d) in
+  flat_map (fun cs => match resolve_comps [] cs with Some q => [q] | None => [] end) (lex_prefixes [] comps).
+Definition lex_clash (a b : str) : bool :=
+  existsb (fpath_eqb (loc_of a)) (lex_locs b) || existsb (fpath_eqb (loc_of b)) (lex_locs a).
 Fixpoint exists_pair {A} (r : A -> A -> bool) (l : list A) : bool :=
   match l with [] => false | x :: t => existsb (r x) t || exists_pair r t end.
 (* F15: the leaf/node check, as written, accepted two paths of which one is a proper token prefix of
@@ -190,7 +196,7 @@ Definition cls_F15 (c : case_C16) : bool :=
    locations once normalised ('x' / 'x/', '.', 'a//b'): both checks compare raw strings *)
 Definition cls_F20 (c : case_C16) : bool :=
   match model_paths c with
-  | Some ds => exists_pair (fun a b => negb (str_eqb a b) && negb (raw_nested a b) && loc_clash a b) ds
+  | Some ds => exists_pair (fun a b => negb (str_eqb a b) && negb (raw_nested a b) && (loc_clash a b || lex_clash a b)) ds
   | None => false
   end.
 (* F6: zip target, and some member name starts with a job's root string without lying below that
